@@ -141,6 +141,19 @@ def build(tier, seed, exclude):
         err = _differ(D.Any2(a=u), D.Any2(a=v), "input %r (%s) vs %r (%s)" % (u, type(u).__name__, v, type(v).__name__))
         return T.fail(err) if err else True
     """, timeout=to)
+    # an explicitly given output path (shell outarg) decides where the result is written and which path is returned
+    g.raw("""
+    from pathlib import Path as _P
+    from fileformats.generic import File as _File
+    _OutT = shell.define("touch", inputs={}, outputs={"out": shell.outarg(type=_File, path_template="default.txt", argstr="", position=1)}, name="OutT")
+    """)
+    g.cond("h_explicit_output_path", "a: str, b: str, default_second: bool", ["1 <= len(a) <= 2 and 1 <= len(b) <= 2 and a != b",
+                                                                            "all(c not in a + b for c in ('/', chr(0))) and a not in ('.', '..') and b not in ('.', '..')"], """
+        t1 = _OutT(out=_P("/elsewhere") / a)
+        t2 = _OutT() if default_second else _OutT(out=_P("/elsewhere") / b)
+        err = _differ(t1, t2, "explicit output path %r vs %s" % ("/elsewhere/" + a, "the template's default" if default_second else repr("/elsewhere/" + b)))
+        return T.fail(err) if err else True
+    """, timeout=to)
     g.cond("h_input_which_field", "x: int, y: int", ["x != y"], """
         from vf.hl import c07defs as D
         err = _differ(D.Any2(a=x, b=y), D.Any2(a=y, b=x), "values swapped between fields") or \\
